@@ -399,7 +399,8 @@ LENGTH_POINTS = (4, 6, 8, 32, 64, 68, 512, 592, 34816)
 
 @st.composite
 def polyglots(draw):
-    base = draw(st.sampled_from(LENGTH_POINTS + (512, 592, 34816, 34816)))
+    base = draw(st.sampled_from(LENGTH_POINTS + (512, 592, 34816, 34816,
+                                                 262144, 300000)))
     length = max(0, base + draw(st.sampled_from([-1, 0, 0, 1, 100])))
     sig0 = draw(st.sampled_from([None, 'qcow2', 'qed', 'vhd', 'vhdx', 'vmdk',
                                  'luks']))
